@@ -57,7 +57,8 @@ func zzDecHeaderNoPanic() {
 }
 
 // RecordLayer.Unmarshal (header + content dispatch to ChangeCipherSpec, Alert, Handshake, ApplicationData,
-// ACK, RRC decoders) on an arbitrary record of 0..13+NREC(+12 for handshake) bytes: no panic.
+// ACK, RRC decoders; content types 20..27, receiver CID length 0 or 2) on an arbitrary record of every length
+// 0..13+NREC: no panic.
 //
 //symgo:entry covers=rec_ok,rec_rejected
 func zzDecRecordLayerNoPanic() {
@@ -92,7 +93,7 @@ func zzDecRecordLayerHandshakeNoPanic() {
 	zzsymCover("rechs_ok")
 }
 
-// UnpackDatagram (and the listener AcceptFilter built on it, see dec_root.go) on an arbitrary datagram of every
+// UnpackDatagram (and the listener AcceptFilter built on it, see dec_root_listener.go) on an arbitrary datagram of every
 // length 0..NDGRAM: no panic, the loop ends, and an accepted datagram is an exact tiling by records that
 // each carry a full 13-byte header.
 //
@@ -144,7 +145,7 @@ func zzDecContentAwareUnpackNoPanic() {
 	zzsymCover("cdg_ok")
 }
 
-// DTLS 1.3 unified header Unmarshal, every length 0..NHDR and receiver CID length 0,2 (thorough: 0,1,2,3,8): no panic; the decoded
+// DTLS 1.3 unified header Unmarshal, every length 0..8 and receiver CID length 0,2 (thorough: 0,1,2,3,8): no panic; the decoded
 // size never exceeds the input.
 //
 //symgo:entry covers=uh_ok,uh_rejected,uh_cid,uh_len
